@@ -138,3 +138,9 @@ package network
 //@   at return assert #the-collapsed-response-is-failed-exactly-when-the-aggregate-is result.1 == nil ==> result.0 == r && r.Failed == m.Failed
 //@   at return assert #its-result-is-the-members-results-joined result.1 == nil ==> r.Result == joinS(rOutputs, "\n") && len(rOutputs) == len(m.Responses)
 //@   loop 1 invariant #each-output-is-its-members-result rangeindex < len(m.Responses) && len(rOutputs) == len(m.Responses) && (forall k int :: 0 <= k && k <= rangeindex ==> rOutputs[k] == m.Responses[k].Result) && isnew(r) && r.Failed == nil
+
+// ---- C04 / C12: an interactive send runs at the requested or else the default level -------------------------------------------
+//@ func (*Driver).SendInteractive [C04 C12]
+//@   requires d.DefaultDesiredPriv != "" && RI(d.Channel.Q) && d.Channel.PromptSearchDepth >= 0 && graphOK(d) && (forall k int :: 0 <= k && k < len(events) ==> events[k] != nil)
+//@   at call! SendInteractive#1 assert #interactive-sends-run-at-the-requested-or-default-level acquired == (op.PrivilegeLevel != "" ? op.PrivilegeLevel : d.DefaultDesiredPriv) && arg0 === events && arg1 === opts
+//@   ensures #nil-on-privilege-failure acquired == "" ==> result.0 == nil && result.1 != nil
